@@ -12,6 +12,7 @@ import PyFatModel.Model.Dir
 import PyFatModel.Model.DirBytes
 import PyFatModel.Model.Names
 import PyFatModel.Model.FatIO
+import PyFatModel.Model.Crash
 
 open Model Model.Hex
 
@@ -338,6 +339,20 @@ def defCp (st : DState) (name decs spaces : String) (upper : String := "-") : DS
     ({ st with cps := (name, cp) :: st.cps, cpi := (name, { dec := da, spaces := sp, upper := up }) :: st.cpi }, "ok")
   | _, _, _ => (st, "bad-op")
 
+/-- `crash fat <ty> <k> <j> <len> <base> <w1> <w2> …`: the FAT copy (bytes `base`) after `k` complete
+    whole-table writes and `j` bytes of the next one; answer = the table a mount decodes from it -/
+def crashCmd (args : List String) : String :=
+  match args with
+  | "fat" :: ty :: k :: j :: len :: base :: ws =>
+    match k.toNat?, j.toNat?, len.toNat?, parseHex base, ws.mapM parseHex with
+    | some k, some j, some len, some base, some ws =>
+      let img := Crash.crash (Crash.ofList base) (ws.map fun d => ⟨0, d⟩) k j
+      let reg := Crash.region img 0 base.length
+      let entry := if ty == "12" then FatTable.entry12 else if ty == "16" then FatTable.entry16 else FatTable.entry32
+      s!"ok {fnv reg} {showNatList (Crash.tableOf entry reg len)}"
+    | _, _, _, _, _ => "bad-op"
+  | _ => "bad-op"
+
 def step (st : DState) (line : String) : DState × String :=
   match (line.trimAscii.toString.splitOn " ").filter (· ≠ "") with
   | "codec" :: args => codec st args
@@ -345,6 +360,7 @@ def step (st : DState) (line : String) : DState × String :=
   | ["cp", name, decs, spaces] => defCp st name decs spaces
   | ["cp", name, decs, spaces, upper] => defCp st name decs spaces upper
   | "name" :: args => (st, names st args)
+  | "crash" :: args => (st, crashCmd args)
   | ["ping"] => (st, "ok pong")
   | [] => (st, "")
   | _ => (st, "bad-op")
